@@ -624,9 +624,9 @@ def r6_c_null(L):
 
 def run(L, tier):
     repo = Repo(L.repo)
-    r1_ok = r1_parser(L, repo)
-    r2_data_path(L, repo, r1_ok)
-    es = r3_ctrl_path(L, repo)
-    r4_attrs(L, repo, es)
-    r5_capture(L, repo)
-    r6_c_null(L)
+    r1_ok = L.stage(r1_parser, L, repo)
+    L.stage(r2_data_path, L, repo, r1_ok)
+    es = L.stage(r3_ctrl_path, L, repo)
+    L.stage(r4_attrs, L, repo, es)
+    L.stage(r5_capture, L, repo)
+    L.stage(r6_c_null, L)
